@@ -20505,6 +20505,8 @@ pub mod verif_hooks_monupd {
 		pub holding_cell_htlc_updates: usize,
 		/// `context.holding_cell_update_fee.is_some()`
 		pub holding_cell_update_fee: bool,
+		/// number of `HTLCUpdateAwaitingACK::AddHTLC` entries in `context.holding_cell_htlc_updates`
+		pub holding_cell_adds: usize,
 	}
 
 	impl<SP: SignerProvider> FundedChannel<SP> {
@@ -20541,6 +20543,12 @@ pub mod verif_hooks_monupd {
 					== RAACommitmentOrder::RevokeAndACKFirst,
 				holding_cell_htlc_updates: self.context.holding_cell_htlc_updates.len(),
 				holding_cell_update_fee: self.context.holding_cell_update_fee.is_some(),
+				holding_cell_adds: self
+					.context
+					.holding_cell_htlc_updates
+					.iter()
+					.filter(|u| matches!(u, HTLCUpdateAwaitingACK::AddHTLC { .. }))
+					.count(),
 			}
 		}
 	}
